@@ -57,3 +57,7 @@ pub mod snapshots;
 pub use snapshots::Snapshot;
 
 pub use utils::cache::Cache;
+
+#[cfg(raindb_verif)]
+#[allow(missing_docs, missing_debug_implementations)]
+pub mod verif_api;
